@@ -26,6 +26,39 @@ fn main() {
         probe_child(&spec);
         return;
     }
+    if let Ok(spec) = std::env::var("C19_DEBUG") {
+        // C19_DEBUG="<prerec>;<graph>": print the Reader's validation results for one graph
+        let (pre, gs) = spec.split_once(';').expect("prerec;graph");
+        let g: Graph = gs
+            .split('/')
+            .map(|nd| {
+                let (fl, ings) = nd.split_once(':').expect("node");
+                let f: Vec<char> = fl.chars().collect();
+                Node {
+                    update: f[0] == '1',
+                    has_hash: f[1] == '1',
+                    sig_ok: f[2] == '1',
+                    ings: ings
+                        .split(',')
+                        .filter(|s| !s.is_empty())
+                        .map(|s| {
+                            let parent = s.starts_with('p');
+                            let hash_ok = s.ends_with('h');
+                            let body = s[1..].trim_end_matches('h');
+                            Ing { target: body.parse().ok(), parent, hash_ok }
+                        })
+                        .collect(),
+                }
+            })
+            .collect();
+        let e = E2e::new();
+        let jumbf = e.build(&g, pre.parse().unwrap()).expect("build");
+        match e.read(&jumbf) {
+            Err(err) => println!("err {err:?}"),
+            Ok(r) => println!("{:?}\n{}", r.validation_state(), serde_json::to_string_pretty(r.validation_results().unwrap()).unwrap()),
+        }
+        return;
+    }
     main_with("C19", run);
 }
 
@@ -1488,6 +1521,7 @@ pub fn run(run: &mut Run, rng: &mut Rng) {
         };
         ex.submit(run, e2e(g, tag));
     }
+    run.notes.push("end-to-end graphs with pre-recorded statuses (e2e_prerecorded_random) keep the random parentOf flags: a verified non-update claim with more than one parentOf ingredient is Invalid by verify_claim's manifest.multipleParents rule, which the e2e model reply includes (it is not a graph event and not part of the theorems)".into());
     run.notes.push(format!("slowest end-to-end build+read: {:.1} ms", ex.max_ms));
 
     // 5. stack budget: the deepest walks on a thread with Rust's default 2 MiB stack, each in a
